@@ -225,13 +225,13 @@ structure G12 where
 /-- exclusive end of the codepoint range of one group, as computed by `Cmap12::group`:
 `end_char_code as u64 + 1`, and with limits
 `(glyph_count as u64).saturating_sub(start_glyph_id).saturating_add(start_code)
-   .min(end_code.min(max_char))`  (the u64 `saturating_add` of two values below 2^32 never
-saturates).  NB `max_char` is used as an *exclusive* bound. -/
+   .min(end_code.min(max_char as u64 + 1))`  (the u64 `saturating_add` of two values below 2^32
+never saturates; `max_char` is the maximum *valid* character — /repo fix 692a13d). -/
 def groupEnd (g : Group) (lim : Option Limits) : Nat :=
   let e := g.endChar + 1
   match lim with
   | none => e
-  | some l => min ((l.glyphCount - g.startGlyph) + g.startChar) (min e l.maxChar)
+  | some l => min ((l.glyphCount - g.startGlyph) + g.startChar) (min e (l.maxChar + 1))
 
 /-- `Cmap12::group(index, limits)` -/
 def group12 (gs : List Group) (i : Nat) (lim : Option Limits) : Option G12 :=
